@@ -26,6 +26,15 @@ typedef struct S_class_tbb__detail__r1__threading_control tc_t;
 typedef struct S_class_tbb__detail__r1__observer_list olist_t;
 typedef struct S_class_tbb__detail__r1__observer_proxy oproxy_t;
 #include "c16_stubs.h"
+#if !defined(VP_NATIVE) && !defined(BUILTIN_MEMCPY)
+/* the 16-byte struct copies of execution_data_ext in nested_arena_context go through dispatcher pointers that depend on the
+   (symbolic) slot index; cbmc's built-in memcpy model works on whole objects and exhausted memory. Word-wise copy, same meaning. */
+void* memcpy(void* d, const void* s, size_t n) {
+  if (n % 8 == 0) for (size_t i = 0; i < n / 8; i++) ((u64*)d)[i] = ((const u64*)s)[i];
+  else for (size_t i = 0; i < n; i++) ((u8*)d)[i] = ((const u8*)s)[i];
+  return d;
+}
+#endif
 
 #define NT 2
 #define NSL (NSLOTS < 2 ? 2 : NSLOTS)
@@ -126,6 +135,11 @@ void vp_returned(u32 tid) {
   left_[tid] = 1;
 }
 
+#ifdef CPRE
+#define SEED 12345u          /* RNG state only matters through `% range`; concrete together with PRE */
+#else
+#define SEED ((u32)vp_nd())
+#endif
 int main(void) {
   VP_ASSERT(vp_sizeof_scope() <= sizeof(SCOPE[0]), "nested_arena_context grew beyond the harness storage");
   VP_ASSERT(vp_sizeof_arena() == sizeof(arena_t) && vp_sizeof_slot() == sizeof(AMEM.more[0]) && vp_sizeof_outbox() == sizeof(AMEM.mb[0]) && vp_sizeof_td() == sizeof(td_t)
@@ -133,9 +147,13 @@ int main(void) {
   A = vp_arena_make((u8*)&AMEM, DISP, (tc_t*)tc_dummy, NSLOTS, NRES, TAIL);
   HOME = &HOMEA;
   NS = vp_arena_num_slots(A);
+#ifdef CPRE
+  PRE = CPRE;
+#else
   PRE = (unsigned)vp_nd_range(0, (1u << NSL) - 1);
+#endif
   for (unsigned i = 0; i < NS; i++) { owner[i] = -1; if ((PRE >> i) & 1) vp_slot_force(A, i, 1); }
-  for (unsigned t = 0; t < NT; t++) { vp_td_setup(&TDS[t], &OUTER[t], HOME, (u16)t, (u32)vp_nd(), (u32)vp_nd()); }
+  for (unsigned t = 0; t < NT; t++) { vp_td_setup(&TDS[t], &OUTER[t], HOME, (u16)t, SEED, SEED); }
   /* the slot hint used by occupy_free_slot is my_arena_index = the thread's index in its home arena (tid) */
 #ifdef CK1   /* placement concrete per query (scenario) */
   K1 = CK1; K2 = CK2;
